@@ -98,6 +98,9 @@ func hasJump(s ast.Node) bool {
 func unconditionalIn(list []ast.Stmt, target ast.Node) bool {
 	for _, s := range list {
 		if s.Pos() <= target.Pos() && target.End() <= s.End() {
+			if ast.Node(s) == target {
+				return true
+			}
 			switch s.(type) {
 			case *ast.ExprStmt, *ast.AssignStmt, *ast.DeclStmt, *ast.GoStmt, *ast.DeferStmt, *ast.ReturnStmt, *ast.SendStmt:
 				return true
